@@ -541,6 +541,55 @@ func longPauses() {
 	}
 }
 
+// relistenSizes: the same port is listened to twice with different sysex
+// buffer sizes (0 = default 1024); sysex messages with lengths between the two
+// sizes must be treated by the second listener's size alone.
+func relistenSizes() {
+	sizes := []uint32{0, 4, 8, 64, 1024, 2000}
+	for _, a := range sizes {
+		for _, b := range sizes {
+			if a == b {
+				continue
+			}
+			eff := int(b)
+			if eff == 0 {
+				eff = 1024
+			}
+			for _, l := range []int{3, 4, 5, 8, 9, 60, 64, 65, 1000, 1024, 1025, 1500, 2000, 2001} {
+				stream := []byte{0xF0}
+				for i := 0; i < l-2; i++ {
+					stream = append(stream, byte(i%100))
+				}
+				stream = append(stream, 0xF7, 0x90, 0x3C, 0x40)
+				ctx.Eval()
+				ctx.Add("relisten_size_cases", 1)
+				lp := ls.NewLoop(ls.Options{SysEx: true, TimeCode: true, ActiveSense: true, BufSize: a})
+				lp.Send([]byte{0xF0, 0x01, 0x02, 0xF7})
+				lp.Relisten(ls.Options{SysEx: true, TimeCode: true, ActiveSense: true, BufSize: b})
+				if lp.Err != nil {
+					report("relisten:error", config{true, b}, stream, nil, "second ListenTo on the same port failed: "+lp.Err.Error())
+					continue
+				}
+				ref := &refmidi.Receiver{BufSize: eff, SysexOn: true}
+				var want []refmidi.Delivery
+				for _, by := range stream {
+					want = append(want, ref.Feed(by)...)
+				}
+				_, c := lp.Send(stream)
+				got := lp.Take()
+				if c.Panicked {
+					report(c.Sig+":relisten-sizes", config{true, b}, stream, nil, fmt.Sprintf("first listener with buffer %d, second with %d: Send panicked: %s", a, b, c.Value))
+					continue
+				}
+				if d := ls.Compare(got, want); d != "" {
+					report("deliver:"+d+":second-listener-other-buffer-size", config{true, b}, stream, nil,
+						fmt.Sprintf("first listener with buffer %d, second with %d, sysex of %d bytes: delivered [%s], reference [%s]", a, b, l, ls.RenderDeliveries(got), ls.RenderRef(want)))
+				}
+			}
+		}
+	}
+}
+
 func feedSized(cfg config, eff int, stream []byte, chunks []int) {
 	refBuf = eff
 	feed(cfg, stream, chunks, 0)
@@ -595,7 +644,7 @@ func main() {
 	ctx.Jobs("long-chunks", 2*nl*nl, func(j int) { longChunks(cfgs[j/(nl*nl)], (j/nl)%nl, j%nl) })
 	ctx.Jobs("sysex-words", 10, func(j int) { sysexWords(j, 10) })
 	ctx.Jobs("long-lived", 4, func(j int) { longLived(j) })
-	ctx.Jobs("long-pauses", 1, func(int) { longPauses() })
+	ctx.Jobs("long-pauses", 1, func(int) { longPauses(); relistenSizes() })
 	ctx.Set("traces_validated_against_impl", ctx.GetInt("transitions"))
 	ctx.Set("max_depth", ctx.GetInt("max:depth"))
 	ctx.Set("byte_classes", len(ls.Classes))
